@@ -50,9 +50,16 @@ fn run_case(rec: &mut Rec, d: &Value) {
                 }
             }
         }
-        // very far probes, for the primitives whose contains() is specified to cope with them (the circle based
-        // ones square an i32 distance and are only probed within the display scale)
-        if matches!(s, Shape::Rect(_) | Shape::Ellipse(_) | Shape::RRect(_) | Shape::Triangle(_)) {
+        // very far probes (the circle based hit tests squared an i32 distance before the repair D27: a panic with
+        // overflow checks, and without them e.g. a point 139 000 px away whose wrapped squared distance is 98)
+        if let Shape::Circle(c) = &s {
+            if c.diameter % 2 == 0 && c.diameter >= 10 {
+                let c2 = c.top_left * 2 + Point::new(c.diameter as i32 - 1, c.diameter as i32 - 1);
+                let p = Point::new((c2.x - 46375) / 2, (c2.y - 274151) / 2);
+                far.push(json!([p.x, p.y, s.contains(p) as i32]));
+            }
+        }
+        if matches!(s, Shape::Rect(_) | Shape::Ellipse(_) | Shape::RRect(_) | Shape::Triangle(_) | Shape::Circle(_) | Shape::Sector(..)) {
             // ... within the range in which the 64-bit products of the ellipse test are exact:
             // (2 * distance + size) * size < 2^31, so that its square stays below 2^62
             let size = bb.size.width.max(bb.size.height).max(1) as i64;
